@@ -24,10 +24,47 @@ def fmtVox (c : Vox) : String := s!"{c.z} {c.y} {c.x}"
 def tab (minSeg : Int) (l : List Int) : Int → Int := fun s =>
   if s < minSeg then 0 else (l[(s - minSeg).toNat]?).getD 0
 
+/-! exact parsing of C99 hex floats (`vh::hex`, `%a`) -/
+
+def hexVal (c : Char) : Option Nat :=
+  if '0' ≤ c ∧ c ≤ '9' then some (c.toNat - '0'.toNat)
+  else if 'a' ≤ c ∧ c ≤ 'f' then some (c.toNat - 'a'.toNat + 10)
+  else if 'A' ≤ c ∧ c ≤ 'F' then some (c.toNat - 'A'.toNat + 10)
+  else none
+
+/-- `[-]0x<hex>[.<hex>]p<±dec>` → exact rational; `none` for `inf`, `nan`, garbage -/
+def parseHex (s : String) : Option Rat := do
+  let cs := s.toList
+  let (neg, cs) := match cs with
+    | '-' :: r => (true, r)
+    | '+' :: r => (false, r)
+    | r => (false, r)
+  let cs ← match cs with
+    | '0' :: 'x' :: r => some r
+    | '0' :: 'X' :: r => some r
+    | _ => none
+  let rec mant (cs : List Char) (acc : Nat) (frac : Nat) (seenDot : Bool) (any : Bool) : Option (Nat × Nat × List Char) :=
+    match cs with
+    | [] => none
+    | 'p' :: r => if any then some (acc, frac, r) else none
+    | 'P' :: r => if any then some (acc, frac, r) else none
+    | '.' :: r => if seenDot then none else mant r acc frac true any
+    | c :: r =>
+      match hexVal c with
+      | some d => mant r (acc * 16 + d) (if seenDot then frac + 1 else frac) seenDot true
+      | none => none
+  let (m, frac, rest) ← mant cs 0 0 false false
+  let e ← match rest with
+    | '+' :: r => (String.ofList r).toInt?
+    | r => (String.ofList r).toInt?
+  let q : Rat := (m : Rat) * pow2 (e - 4 * (frac : Int))
+  some (if neg then -q else q)
+
 /-- geometry as sent by the harness -/
 structure Geo where
   V : Int
-  square : Bool
+  vy : Rat                  -- y and x voxel size (the floats `get_grid_spacing()[2]`, `[3]`, exactly)
+  vx : Rat
   phi0 : Bool
   tof : Bool
   xy0 : Bool
@@ -48,27 +85,30 @@ def defaultAx : AxGeo :=
     minZ := 0, maxZ := 0, originZ := 0 }
 
 instance : Inhabited Geo :=
-  ⟨{ V := 1, square := true, phi0 := true, tof := false, xy0 := true, minSeg := 0, maxSeg := 0,
+  ⟨{ V := 1, vy := 1, vx := 1, phi0 := true, tof := false, xy0 := true, minSeg := 0, maxSeg := 0,
      originZ4 := 0, ax := defaultAx, maxAbsAx0 := 0, maxAbsTang := 0, maxAbsTof := 0 }⟩
 
-/-- tokens: V square phi0 tof xy0 nppr minSeg maxSeg minZ maxZ originZ4 maxAbsAx0 maxAbsTang maxAbsTof, then per segment
+/-- tokens: V vy vx phi0 tof xy0 nppr minSeg maxSeg minZ maxZ originZ4 maxAbsAx0 maxAbsTang maxAbsTof, then per segment
     `nppa delta2 minAx maxAx` -/
 def parseGeo (t : List String) : Option Geo :=
   match t with
-  | v :: sq :: p0 :: tof :: xy0 :: nppr :: mins :: maxs :: minz :: maxz :: oz4 :: ma :: mt :: mf :: rest =>
+  | v :: vy :: vx :: p0 :: tof :: xy0 :: nppr :: mins :: maxs :: minz :: maxz :: oz4 :: ma :: mt :: mf :: rest =>
     let nseg := (I maxs - I mins + 1).toNat
     if rest.length != 4 * nseg then none else
+    match parseHex vy, parseHex vx with
+    | some vy, some vx =>
     let col (k : Nat) : List Int := (List.range nseg).map fun i => I (rest.getD (4 * i + k) "0")
-    some { V := I v, square := B sq, phi0 := B p0, tof := B tof, xy0 := B xy0, minSeg := I mins, maxSeg := I maxs,
+    some { V := I v, vy := vy, vx := vx, phi0 := B p0, tof := B tof, xy0 := B xy0, minSeg := I mins, maxSeg := I maxs,
            originZ4 := I oz4,
            ax := { nppr := I nppr, nppa := tab (I mins) (col 0), delta2 := tab (I mins) (col 1),
                    minAx := tab (I mins) (col 2), maxAx := tab (I mins) (col 3),
                    minZ := I minz, maxZ := I maxz, originZ := (I oz4) / 4 },
            maxAbsAx0 := N ma, maxAbsTang := N mt, maxAbsTof := N mf }
+    | _, _ => none
   | _ => none
 
 def Geo.sym (g : Geo) (f : Flags) : Sym :=
-  Sym.make g.V (f.effective g.V g.square g.phi0 g.tof g.xy0) g.ax
+  Sym.make g.V (f.effectiveVox g.V g.vy g.vx g.phi0 g.tof g.xy0) g.ax
 
 /-- the constructor calls `error` when the z origin is not a whole number of planes -/
 def Geo.valid (g : Geo) : Bool := g.originZ4 % 4 == 0
